@@ -196,9 +196,11 @@ func decodeKeyCharByUnicodeRune(buf []byte, cursor int64) ([]byte, int64, error)
 	return []byte(string(r)), cursor + defaultOffset - 1, nil
 }
 
+// decodeKeyCharByEscapedChar decodes the escape whose letter is at cursor.
+// The returned cursor is the position of the last byte of the escape:
+// the caller advances past it.
 func decodeKeyCharByEscapedChar(buf []byte, cursor int64) ([]byte, int64, error) {
 	c := buf[cursor]
-	cursor++
 	switch c {
 	case '"':
 		return []byte{'"'}, cursor, nil
@@ -217,7 +219,7 @@ func decodeKeyCharByEscapedChar(buf []byte, cursor int64) ([]byte, int64, error)
 	case 't':
 		return []byte{'\t'}, cursor, nil
 	case 'u':
-		return decodeKeyCharByUnicodeRune(buf, cursor)
+		return decodeKeyCharByUnicodeRune(buf, cursor+1)
 	case nul:
 		return nil, 0, errors.ErrUnexpectedEndOfJSON("string", cursor)
 	}
@@ -448,7 +450,8 @@ func decodeKeyByBitmapUint8Stream(d *structDecoder, s *Stream) (*structFieldSet,
 					if err != nil {
 						return nil, "", err
 					}
-					cursor = s.cursor
+					// the escape decoder may have refilled (and moved) the buffer
+					_, cursor, p = s.stat()
 					for _, c := range chars {
 						curBit &= bitmap[keyIdx][largeToSmallTable[c]]
 						if curBit == 0 {
@@ -535,7 +538,8 @@ func decodeKeyByBitmapUint16Stream(d *structDecoder, s *Stream) (*structFieldSet
 					if err != nil {
 						return nil, "", err
 					}
-					cursor = s.cursor
+					// the escape decoder may have refilled (and moved) the buffer
+					_, cursor, p = s.stat()
 					for _, c := range chars {
 						curBit &= bitmap[keyIdx][largeToSmallTable[c]]
 						if curBit == 0 {
@@ -594,10 +598,12 @@ func decodeKeyCharByUnicodeRuneStream(s *Stream) ([]byte, error) {
 	return []byte(string(r)), nil
 }
 
+// decodeKeyCharByEscapeCharStream decodes the escape whose letter is at s.cursor.
+// On return s.cursor is the position of the last byte of the escape:
+// the caller advances past it.
 func decodeKeyCharByEscapeCharStream(s *Stream) ([]byte, error) {
-	c := s.buf[s.cursor]
-	s.cursor++
 RETRY:
+	c := s.buf[s.cursor]
 	switch c {
 	case '"':
 		return []byte{'"'}, nil
@@ -616,6 +622,7 @@ RETRY:
 	case 't':
 		return []byte{'\t'}, nil
 	case 'u':
+		s.cursor++
 		return decodeKeyCharByUnicodeRuneStream(s)
 	case nul:
 		if !s.read() {
